@@ -44,6 +44,7 @@ type step struct {
 	Set []setItem `json:"set"`
 	K   int       `json:"k"` // mutation number
 	X   bool      `json:"x"` // the statement also names the column zz, which the table does not have
+	Y   bool      `json:"y"` // the statement names its first column twice
 }
 
 type request struct {
@@ -51,6 +52,7 @@ type request struct {
 	Schema []string `json:"schema"`
 	Steps  []step   `json:"steps"`
 	Full   bool     `json:"full"` // report long strings in full instead of by digest
+	Names  []string `json:"names"` // if set: a CREATE TABLE with these column names (all INT), one row stored and read back
 }
 
 type tagged struct {
@@ -69,6 +71,8 @@ type stepRes struct {
 }
 
 type result struct {
+	Created *bool   `json:"created,omitempty"` // names request: did CREATE TABLE succeed
+	Read    []int64 `json:"read,omitempty"`    // names request: the row read back (one value per column)
 	OK    bool      `json:"ok"` // false: the harness itself failed (not a verdict)
 	Err   string    `json:"err,omitempty"`
 	Skip  string    `json:"skip,omitempty"` // text path: why the scenario cannot be written as SQL text
@@ -242,6 +246,62 @@ func parse(q string) (interface{}, error) {
 	return p.Parse()
 }
 
+// runNames: CREATE TABLE t (<names> INT ...); if it is accepted, INSERT INTO t VALUES (11, 12, ...) and SELECT * FROM t.
+func runNames(req request, sess *engine.Session) result {
+	var created bool
+	res := result{OK: true, Created: &created}
+	if req.Path == "text" {
+		var cols []string
+		for _, n := range req.Names {
+			cols = append(cols, n+" INT")
+		}
+		if err := protect(func() error { return sess.ExecQuery("CREATE TABLE t (" + strings.Join(cols, ", ") + ")") }); err != nil {
+			res.Err = err.Error()
+			return res
+		}
+	} else {
+		ct := sql.CreateTable{Name: "t"}
+		for _, n := range req.Names {
+			ct.Elements = append(ct.Elements, sql.TableElement{ColumnDefinition: sql.ColumnDefinition{Name: n, DataType: sql.NumericType{}}})
+		}
+		if err := protect(func() error { return engine.EvaluateCreateTable(ct, sess.RelationService) }); err != nil {
+			res.Err = err.Error()
+			return res
+		}
+	}
+	created = true
+	var lits []string
+	for j := range req.Names {
+		lits = append(lits, fmt.Sprint(11+j))
+	}
+	if err := protect(func() error { return sess.ExecQuery("INSERT INTO t VALUES (" + strings.Join(lits, ", ") + ")") }); err != nil {
+		res.Err = "insert: " + err.Error()
+		return res
+	}
+	selAny, err := parse("SELECT * FROM t")
+	if err != nil {
+		return result{Err: "parse select: " + err.Error()}
+	}
+	var rows []*storage.Row
+	if err := protect(func() error {
+		var e error
+		rows, _, e = engine.EvaluateSelect(selAny.(sql.Select), sess.RelationService)
+		return e
+	}); err != nil {
+		res.Err = "select: " + err.Error()
+		return res
+	}
+	if len(rows) != 1 {
+		res.Err = fmt.Sprintf("select returned %d rows", len(rows))
+		return res
+	}
+	for _, v := range rows[0].Vals {
+		n, _ := v.(int64)
+		res.Read = append(res.Read, n)
+	}
+	return res
+}
+
 func run(req request) result {
 	full = req.Full
 	if err := os.RemoveAll("data"); err != nil {
@@ -260,6 +320,9 @@ func run(req request) result {
 	}
 	if storage.VerifValFlusherOn(sess.RelationService) {
 		return result{Err: "background flusher is on"}
+	}
+	if len(req.Names) > 0 {
+		return runNames(req, sess)
 	}
 	// table
 	if req.Path == "text" {
@@ -336,11 +399,14 @@ func run(req request) result {
 				if s.X {
 					cols, lits = append(cols, "zz"), append(lits, "1")
 				}
+				if s.Y && len(cols) > 0 {
+					cols, lits = append([]string{cols[0]}, cols...), append([]string{lits[0]}, lits...)
+				}
 				if len(cols) == 0 {
 					return result{Err: "a row of NULLs cannot be written as SQL text"}
 				}
 				q := "INSERT INTO t (" + strings.Join(cols, ", ") + ") VALUES (" + strings.Join(lits, ", ") + ")"
-				if len(cols) == len(vals) && s.K%2 == 0 && !s.X {
+				if len(cols) == len(vals) && s.K%2 == 0 && !s.X && !s.Y {
 					q = "INSERT INTO t VALUES (" + strings.Join(lits, ", ") + ")"
 				}
 				sr.SQL = q
@@ -349,7 +415,7 @@ func run(req request) result {
 				}
 			} else {
 				st := sql.InsertStatement{TableName: "t"}
-				if s.K%2 == 1 || s.X {
+				if s.K%2 == 1 || s.X || s.Y {
 					for j := range vals {
 						st.InsertColumnsAndSource.InsertColumnList.ColumnNames = append(st.InsertColumnsAndSource.InsertColumnList.ColumnNames, colName(j+1))
 					}
@@ -357,6 +423,10 @@ func run(req request) result {
 				if s.X {
 					st.InsertColumnsAndSource.InsertColumnList.ColumnNames = append(st.InsertColumnsAndSource.InsertColumnList.ColumnNames, "zz")
 					vals = append(vals, int64(1))
+				}
+				if s.Y {
+					st.InsertColumnsAndSource.InsertColumnList.ColumnNames = append([]string{colName(1)}, st.InsertColumnsAndSource.InsertColumnList.ColumnNames...)
+					vals = append([]interface{}{vals[0]}, vals...)
 				}
 				st.InsertColumnsAndSource.QueryExpression = sql.TableValueConstructor{
 					TableValueConstructorList: []sql.RowValueConstructor{{RowValueConstructorList: vals}}}
@@ -385,6 +455,12 @@ func run(req request) result {
 			if s.X {
 				sets = append(sets, sql.SetClause{ObjectColumn: "zz", UpdateSource: int64(1)})
 				parts = append(parts, "zz = 1")
+			}
+			if s.Y && len(sets) > 0 {
+				sets = append(sets, sets[0])
+				if len(parts) > 0 {
+					parts = append(parts, parts[0])
+				}
 			}
 			if req.Path == "text" {
 				q := "UPDATE t SET " + strings.Join(parts, ", ")
